@@ -22,7 +22,7 @@ type vpSN struct {
 	pos int
 }
 
-func vpWS(c byte) bool   { return c == ' ' || c == '\t' || c == '\r' || c == '\n' }
+func vpWS(c byte) bool { return c == ' ' || c == '\t' || c == '\r' || c == '\n' }
 func vpBare(c byte) bool {
 	return c >= '0' && c <= '9' || c >= 'A' && c <= 'Z' || c >= 'a' && c <= 'z' || c == '_' || c == '-' || c == '.' || c == '+'
 }
